@@ -3,7 +3,7 @@
 import re, sys, json, os
 rows = []
 for l in open(sys.argv[1]):
-    m = re.match(r'(C\d+-m\d+) caught-by:(.*)', l.strip())
+    m = re.match(r'(C\d+-[mk]\d+) caught-by:(.*)', l.strip())
     if m:
         rows.append((m.group(1), m.group(2).strip()))
 print('| change | what it needs to manifest (see seeded/<id>/notes.md) | caught by (violations with input / all) |')
